@@ -1,7 +1,237 @@
 import CddVerif.Driver.Basic
+import CddVerif.Py.AstJson
+import CddVerif.Model.IfaceParse
+import CddVerif.Model.IfaceDomain
 /-! Driver ops for C02 (line protocol; see Main.lean). Only Mathlib-free imports here. -/
 namespace Driver.C02
-open Lean Driver
+open Lean Driver Iface
 
-def ops : List (String × Handler) := []
+/-! ### JSON → model -/
+
+def optS (j : Json) (k : String) : Option String :=
+  match j.getObjVal? k with | .ok (.str s) => some s | _ => none
+def getB (j : Json) (k : String) (dflt : Bool) : Bool :=
+  match j.getObjVal? k with | .ok (.bool b) => b | _ => dflt
+def field? (j : Json) (k : String) : Option Json :=
+  match j.getObjVal? k with | .ok .null => none | .ok v => some v | .error _ => none
+
+def defaultOf (j : Json) : Except String Default := do
+  let t ← getStr j "t"
+  let v ← getStr j "v"
+  match t with
+  | "int" => match v.toInt? with | some i => pure (.int i) | none => .error ("bad int " ++ v)
+  | "float" => pure (.float v)
+  | "complex" => pure (.complex v)
+  | "bool" => pure (.bool (v == "True"))
+  | "str" => pure (.str v)
+  | _ => .error ("unsupported value type " ++ t)
+
+def constOf (j : Json) : Except String Const :=
+  match j with
+  | .null => pure .none
+  | j => do pure (.val (← defaultOf j))
+
+def exprOf (j : Json) : Except String Expr := do
+  match (← getStr j "k") with
+  | "const" => pure (.const (← constOf (← j.getObjVal? "v")))
+  | "neg" => pure (.neg (← constOf (← j.getObjVal? "v")))
+  | "name" => pure (.name (← getStr j "id"))
+  | "code" => pure (.code (← getStr j "src") (getB j "tuple" false))
+  | k => .error ("bad expr kind " ++ k)
+
+def optExprOf (j : Json) (k : String) : Except String (Option Expr) :=
+  match field? j k with | some e => do pure (some (← exprOf e)) | none => pure none
+
+def dvalOf (j : Json) : Except String DVal := do
+  match optS j "t" with
+  | some "node" => pure (.node (← exprOf (← j.getObjVal? "e")))
+  | _ => pure (.val (← defaultOf j))
+
+def paramOf (j : Json) : Except String Param := do
+  let d ← match field? j "default" with | some d => (do pure (some (← dvalOf d))) | none => pure none
+  pure { doc := optS j "doc", typ := optS j "typ", default := d }
+
+def irOf (j : Json) : Except String IR := do
+  let ps ← match j.getObjVal? "params" with
+    | .ok (.arr a) => a.toList.mapM (fun kv => do
+        let p ← kv.getArr?
+        pure ((← p[0]!.getStr?), (← paramOf p[1]!)))
+    | _ => pure []
+  let r ← match field? j "returns" with | some r => (do pure (some (← paramOf r))) | none => pure none
+  pure { name := optS j "name", type := optS j "type", doc := (optS j "doc").getD "", params := ps, returns := r }
+
+def styleOf : String → Style
+  | "google" => .google | "numpydoc" => .numpydoc | _ => .rest
+
+def cfgOf (j : Json) : Cfg :=
+  { style := styleOf ((optS j "style").getD "rest"), emitDefaultDoc := getB j "edd" false, typeAnnotations := getB j "type_annotations" true,
+    kwOnly := getB j "kw_only" true }
+
+def formatOf : String → Except String Iface.Format
+  | "class" => pure .class_ | "pydantic" => pure .pydantic | "function" => pure .function | "argparse" => pure .argparse
+  | f => .error ("bad format " ++ f)
+
+def argOf (j : Json) : Arg := { name := (optS j "name").getD "", ann := optS j "ann" }
+def arrOf (j : Json) (k : String) : List Json := match j.getObjVal? k with | .ok (.arr a) => a.toList | _ => []
+
+def stmtOf (j : Json) : Except String Stmt := do
+  match (← getStr j "k") with
+  | "doc" => pure (.doc (← getStr j "s"))
+  | "ann" => pure (.ann (← getStr j "target") (← getStr j "ann") (← optExprOf j "value"))
+  | "descr" => pure (.descr (← constOf (← j.getObjVal? "c")))
+  | "add" =>
+    let choices := match j.getObjVal? "choices" with
+      | .ok (.arr a) => some (a.toList.filterMap (fun x => match x with | .str s => some s | _ => none))
+      | _ => none
+    pure (.addArg { name := ← getStr j "name", typ := optS j "typ", choices := choices, action := optS j "action", help := optS j "help",
+                    required := getB j "required" false, default := ← optExprOf j "default" })
+  | "ret" => pure (.ret (← exprOf (← j.getObjVal? "e")))
+  | "rettuple" => pure (.retTuple (← exprOf (← j.getObjVal? "e")))
+  | "retparser" => pure .retParser
+  | "ellipsis" => pure .ellipsis
+  | _ => pure (.other ((optS j "src").getD ""))
+
+def topOf (j : Json) : Except String Top := do
+  let body ← (arrOf j "body").mapM stmtOf
+  match (← getStr j "k") with
+  | "cls" => pure (.cls (← getStr j "name") ((arrOf j "bases").filterMap (fun x => match x with | .str s => some s | _ => none)) body)
+  | "fn" =>
+    let a ← j.getObjVal? "args"
+    let defaults ← (arrOf a "defaults").mapM exprOf
+    let kwd ← (arrOf a "kw_defaults").mapM (fun x => match x with | .null => pure none | e => do pure (some (← exprOf e)))
+    pure (.fn (← getStr j "name") { args := (arrOf a "args").map argOf, defaults := defaults, kwonly := (arrOf a "kwonly").map argOf, kwDefaults := kwd }
+      body (optS j "returns"))
+  | k => .error ("bad top kind " ++ k)
+
+/-! ### model → JSON -/
+
+def optJ : Option String → Json | none => Json.null | some s => Json.str s
+def defaultJ : Default → Json
+  | .int i => Json.mkObj [("t", "int"), ("v", Json.str (toString i))]
+  | .float r => Json.mkObj [("t", "float"), ("v", Json.str r)]
+  | .complex r => Json.mkObj [("t", "complex"), ("v", Json.str r)]
+  | .bool b => Json.mkObj [("t", "bool"), ("v", Json.str (if b then "True" else "False"))]
+  | .str s => Json.mkObj [("t", "str"), ("v", Json.str s)]
+def constJ : Const → Json | .none => Json.null | .val d => defaultJ d
+def exprJ : Expr → Json
+  | .const c => Json.mkObj [("k", "const"), ("v", constJ c)]
+  | .neg c => Json.mkObj [("k", "neg"), ("v", constJ c)]
+  | .name id => Json.mkObj [("k", "name"), ("id", Json.str id)]
+  | .code s t => Json.mkObj [("k", "code"), ("src", Json.str s), ("tuple", Json.bool t)]
+def optExprJ : Option Expr → Json | none => Json.null | some e => exprJ e
+def dvalJ : DVal → Json
+  | .val d => defaultJ d
+  | .node e => Json.mkObj [("t", "node"), ("e", exprJ e)]
+def paramJ (p : Param) : Json :=
+  Json.mkObj [("doc", optJ p.doc), ("typ", optJ p.typ), ("default", match p.default with | some d => dvalJ d | none => Json.null)]
+def irJ (ir : IR) : Json :=
+  Json.mkObj [("name", optJ ir.name), ("type", optJ ir.type), ("doc", Json.str ir.doc),
+    ("params", Json.arr (ir.params.map (fun kv => Json.arr #[Json.str kv.1, paramJ kv.2])).toArray),
+    ("returns", match ir.returns with | some r => paramJ r | none => Json.null)]
+def argJ (a : Arg) : Json := Json.mkObj [("name", Json.str a.name), ("ann", optJ a.ann)]
+def stmtJ : Stmt → Json
+  | .doc s => Json.mkObj [("k", "doc"), ("s", Json.str s)]
+  | .ann t a v => Json.mkObj [("k", "ann"), ("target", Json.str t), ("ann", Json.str a), ("value", optExprJ v)]
+  | .descr c => Json.mkObj [("k", "descr"), ("c", constJ c)]
+  | .addArg a => Json.mkObj [("k", "add"), ("name", Json.str a.name), ("typ", optJ a.typ),
+      ("choices", match a.choices with | some c => Json.arr (c.map Json.str).toArray | none => Json.null),
+      ("action", optJ a.action), ("help", optJ a.help), ("required", Json.bool a.required), ("default", optExprJ a.default)]
+  | .ret e => Json.mkObj [("k", "ret"), ("e", exprJ e)]
+  | .retTuple e => Json.mkObj [("k", "rettuple"), ("e", exprJ e)]
+  | .retParser => Json.mkObj [("k", "retparser")]
+  | .ellipsis => Json.mkObj [("k", "ellipsis")]
+  | .other s => Json.mkObj [("k", "other"), ("src", Json.str s)]
+def topJ : Top → Json
+  | .cls n b body => Json.mkObj [("k", "cls"), ("name", Json.str n), ("bases", Json.arr (b.map Json.str).toArray),
+      ("body", Json.arr (body.map stmtJ).toArray)]
+  | .fn n a body r => Json.mkObj [("k", "fn"), ("name", Json.str n),
+      ("args", Json.mkObj [("args", Json.arr (a.args.map argJ).toArray), ("defaults", Json.arr (a.defaults.map exprJ).toArray),
+        ("kwonly", Json.arr (a.kwonly.map argJ).toArray), ("kw_defaults", Json.arr (a.kwDefaults.map optExprJ).toArray)]),
+      ("body", Json.arr (body.map stmtJ).toArray), ("returns", optJ r)]
+def styleJ : Style → Json | .rest => "rest" | .google => "google" | .numpydoc => "numpydoc"
+def docCfgJ (c : DocEmitCfg) : Json :=
+  Json.mkObj [("style", styleJ c.style), ("emit_default_doc", Json.bool c.emitDefaultDoc), ("emit_types", Json.bool c.emitTypes),
+    ("purpose", if c.purposeClass then "class" else "function"), ("indent_level", Json.num (JsonNumber.fromNat c.indentLevel)),
+    ("emit_separating_tab", Json.bool c.emitSeparatingTab)]
+
+/-! ### the environment: answers of the real docstring layer / CPython, sent with the request -/
+
+def missMark : String := "<<oracle-miss>>"
+
+/-- `env` object: `doc_text`, `doc_ir`, `ed` = [[edd, doc, doc', default|null]…], `adhoc` = [[doc, name, is_none, typ|null]…],
+    `exprs` = [[src, expr|null]…].  A question that was not answered yields a marker that shows up in the output. -/
+def envOf (j : Json) : Except String Env := do
+  let docText := (optS j "doc_text").getD missMark
+  let docIR ← match field? j "doc_ir" with
+    | some d => irOf d
+    | none => pure { name := some missMark, doc := missMark, params := [(missMark, {})] }
+  let ed ← (arrOf j "ed").mapM (fun r => do
+    let a ← r.getArr?
+    let d ← match a[3]! with | .null => pure none | x => (do pure (some (← defaultOf x)))
+    pure ((← a[0]!.getBool?), (← a[1]!.getStr?), (← a[2]!.getStr?), d))
+  let adhoc ← (arrOf j "adhoc").mapM (fun r => do
+    let a ← r.getArr?
+    pure ((← a[0]!.getStr?), (← a[1]!.getStr?), (← a[2]!.getBool?), (match a[3]! with | .str s => some s | _ => none)))
+  let exprs ← (arrOf j "exprs").mapM (fun r => do
+    let a ← r.getArr?
+    let e ← match a[1]! with | .null => pure none | x => (do pure (some (← exprOf x)))
+    pure ((← a[0]!.getStr?), e))
+  pure {
+    docEmit := fun _ _ => docText
+    docParse := fun _ _ => docIR
+    extractDefault := fun edd d =>
+      match ed.find? (fun r => r.1 == edd && r.2.1 == d) with
+      | some r => (r.2.2.1, r.2.2.2)
+      | none => (d, some (.str missMark))
+    adhocTyp := fun d n b =>
+      match adhoc.find? (fun r => r.1 == d && r.2.1 == n && r.2.2.1 == b) with
+      | some r => r.2.2.2
+      | none => some missMark
+    pyExpr := fun s =>
+      match exprs.find? (fun r => r.1 == s) with
+      | some r => r.2
+      | none => some (.code missMark false) }
+
+def result (r : Except String Json) : Json :=
+  match r with
+  | .ok j => Json.mkObj [("ok", j)]
+  | .error e => Json.mkObj [("error", Json.str e)]
+
+def ops : List (String × Handler) := [
+  ("c02.docreq", fun j => do
+    let f ← formatOf (← getStr j "fmt")
+    let ir ← irOf (← j.getObjVal? "ir")
+    let (c, dir) := docRequest f (cfgOf (← j.getObjVal? "cfg")) ir
+    return Json.mkObj [("cfg", docCfgJ c), ("ir", irJ dir)]),
+  ("c02.emit", fun j => do
+    let f ← formatOf (← getStr j "fmt")
+    let ir ← irOf (← j.getObjVal? "ir")
+    let env ← envOf (← j.getObjVal? "env")
+    return result (do
+      let t ← emit env f (cfgOf (← j.getObjVal? "cfg")) ir
+      pure (Json.mkObj [("py", PyAst.stmtJ t.toPy), ("ast", topJ t), ("reparsed", topJ t.reparse)]))),
+  ("c02.parse", fun j => do
+    let f ← formatOf (← getStr j "fmt")
+    let t ← topOf (← j.getObjVal? "ast")
+    let env ← envOf (← j.getObjVal? "env")
+    return result (do
+      let ir ← parse env f t
+      pure (irJ ir))),
+  ("c02.types", fun j => do
+    let t ← getStr j "typ"
+    return Json.mkObj [("needs_quoting", Json.bool (needsQuoting (some t))), ("names", Json.arr ((typeNames t).map Json.str).toArray),
+      ("consts", Json.arr ((typeStrConsts t).map Json.str).toArray), ("simple", Json.bool (isSimple t))]),
+  ("c02.str", fun j => do
+    let s ← getStr j "s"
+    return Json.mkObj [("repr", Json.str (pyRepr s)), ("quote", Json.str (quoteStr s)), ("unquote", Json.str (unquoteStr s)),
+      ("set_value", Json.str (setValueStr s)), ("code_quoted", Json.bool (codeQuoted s)), ("tidy", Json.str (tidyDoc s)),
+      ("norm", optJ (normDoc s)), ("strip_ticks", Json.str (stripTicks s)), ("paren_wrap", Json.str (parenWrap s))]),
+  ("c02.indomain", fun j => do
+    let f ← formatOf (← getStr j "fmt")
+    let ir ← irOf (← j.getObjVal? "ir")
+    let env ← envOf (← j.getObjVal? "env")
+    let cfg := cfgOf (← j.getObjVal? "cfg")
+    return Json.mkObj [("in", Json.bool (inD02 env f cfg ir)), ("hyp", Json.bool (docHyp env f cfg ir)),
+      ("issues", Json.arr ((docIssues env f cfg ir).map (fun x => Json.arr #[Json.str x.1, Json.str x.2])).toArray)])
+]
 end Driver.C02
